@@ -31,16 +31,25 @@ use std::sync::atomic::AtomicI64;
 
 pub static CLOCK_CALLS: AtomicU64 = AtomicU64::new(0);
 pub static CLOCK_SKEW_NS: AtomicI64 = AtomicI64::new(0);
+/// when non-zero the wall clock is fully simulated: CLOCK_REALTIME reads this value (+ skew, + 1 us
+/// per read so that it never stands still), so deadlines of a history can be placed before or after
+/// "now" of a replay without reading the real clock
+pub static CLOCK_ABS_NS: AtomicI64 = AtomicI64::new(0);
 
 /// # Safety
 /// `ts` must point to a writable timespec, as for libc's clock_gettime.
 #[no_mangle]
 pub unsafe extern "C" fn clock_gettime(clk: libc::clockid_t, ts: *mut libc::timespec) -> libc::c_int {
-    CLOCK_CALLS.fetch_add(1, Ordering::Relaxed);
+    let calls = CLOCK_CALLS.fetch_add(1, Ordering::Relaxed);
     let r = libc::syscall(libc::SYS_clock_gettime, clk, ts) as libc::c_int;
     if r == 0 && clk == libc::CLOCK_REALTIME {
         let skew = CLOCK_SKEW_NS.load(Ordering::Relaxed);
-        if skew != 0 {
+        let abs = CLOCK_ABS_NS.load(Ordering::Relaxed);
+        if abs != 0 {
+            let total = i128::from(abs) + i128::from(skew) + i128::from(calls % 1_000_000) * 1000;
+            (*ts).tv_sec = (total.div_euclid(1_000_000_000)) as libc::time_t;
+            (*ts).tv_nsec = (total.rem_euclid(1_000_000_000)) as libc::c_long;
+        } else if skew != 0 {
             let total = i128::from((*ts).tv_sec) * 1_000_000_000 + i128::from((*ts).tv_nsec) + i128::from(skew);
             (*ts).tv_sec = (total.div_euclid(1_000_000_000)) as libc::time_t;
             (*ts).tv_nsec = (total.rem_euclid(1_000_000_000)) as libc::c_long;
